@@ -292,3 +292,23 @@ func TestWitnessVPSAllocation(t *testing.T) {
 			"H265RawVPS.Decode of %d bytes allocated %d MB (err=%v)", len(in), mb, err != nil)
 	}
 }
+
+// W11: profile_idc values of the 2021 edition that carry chroma_format_idc …
+// seq_scaling_matrix (7.3.2.1.1) but were missing from ipchub's list: 128
+// (Stereo High), 138, 139 (Multiview Depth), 134, 135 (MFC). The same 1920x1080
+// 4:2:2 10-bit SPS is encoded under every profile_idc of the complete list; the
+// syntax, and so the derived size, is identical for all of them.
+func TestWitnessH264ProfileList(t *testing.T) {
+	for _, prof := range h26xps.H264ProfilesWithChromaInfo {
+		s := h26xps.NewH264SPS(1920, 1080)
+		s.ProfileIdc, s.ConstraintSetFlag = prof, [6]bool{}
+		s.ChromaFormatIdc, s.BitDepthLumaMinus8, s.BitDepthChromaMinus8 = 2, 2, 2
+		s.FrameCropBottomOffset = 8 // CropUnitY 1 for 4:2:2
+		checkVideoWitness(t, "witness-h264-profile-list", "h264sps", s.Encode(), s.Derived(), h264Elements(s))
+	}
+	for _, prof := range h26xps.H264ProfilesWithoutChromaInfo {
+		s := h26xps.NewH264SPS(1920, 1080)
+		s.ProfileIdc, s.ConstraintSetFlag = prof, [6]bool{}
+		checkVideoWitness(t, "witness-h264-profile-list", "h264sps", s.Encode(), s.Derived(), h264Elements(s))
+	}
+}
